@@ -749,6 +749,7 @@ def adversarial_precedence(w: World, rec: dict) -> list[str]:
     consts = consts_of(hard)
     offered = {t.unique_name: t for t in rec["tasks"]}
     s = z3.Solver(ctx=opt.ctx)  # the context of the captured terms (a fresh one per call)
+    s.set("timeout", 20000)  # ms per query; "unknown" counts as no hit
     s.add(*hard)
     found = []
     for c in rec["tasks"]:
@@ -799,6 +800,7 @@ def adversarial_c10(w: World, rec: dict) -> list:
     consts = consts_of(hard)
     nW = len(rec["workers"])
     s = z3.Solver(ctx=opt.ctx)  # the context of the captured terms (a fresh one per call)
+    s.set("timeout", 20000)  # ms per query; "unknown" counts as no hit
     s.add(*hard)
     found = []
 
